@@ -17,7 +17,9 @@ TAXA_POOL = [
     "flow/loop/for", "flow/loop/while", "flow/conditional", "op/mult", "op/multiply", "var/assignment",
     "x", "x/y", "call/print", "def/function",
 ]
-PROG_POOL = ["p1.py", "p2.py", "p10.py", "dir/p1.py", "dir/q.py", "q.py", "zz.py", "p1_bis.py"]
+# some paths, read as regular expressions, match OTHER paths too ("q.py" matches "q_py.py", "zz.py" matches "zzapy.py"):
+# a `.py` criterion is a pattern matched from the start, never a mere path (seeded change C04-c)
+PROG_POOL = ["p1.py", "p2.py", "p10.py", "dir/p1.py", "dir/q.py", "q.py", "zz.py", "p1_bis.py", "q_py.py", "zzapy.py", "p1.pyx.py"]
 TAXON_PATTERNS = [
     "a", "a/b", "a/b$", "a/(b|bc)", "a/b.", "flow", "flow/loop", "flow/lo", "flow/.*for", ".*", "op|var", "op/mult",
     "op/mult$", "meta", "meta/program", "x", "x/y", "nothing/here", "var/assignment", "call", "a/b/c", "a/b_", "def/function",
